@@ -12,7 +12,7 @@ from .. import alg
 from ..alg import E, lift, ZERO, ONE
 from ..interp import Interp, RaiseSig
 from ..values import symarr, mkarr, Partial, Native, Record, Opaque, FuncVal, keyof, Guard
-from .common import ident, ident_arr, public, defloc, call_public, short, Abort
+from .common import ident, ident_arr, public, defloc, call_public, short, Abort, explore_exits
 from ..flow import effects_of_function
 
 LEVEL = "other"
@@ -62,6 +62,7 @@ def jacobians(ctx, I):
             uf, Lf = pair
             try:
                 u = I.call(uf, (t, x.copy()))
+                gL = len(I.guards)
                 L = I.call(Lf, (t, x.copy()))
             except RaiseSig as r:
                 ctx.ob("C18.jacobian", tag, False, f"callable raises {r.exc.typename} on a generic interior point", loc)
@@ -75,6 +76,17 @@ def jacobians(ctx, I):
                     ident(ctx, "C18.jacobian", f"{name}:{a}{b}:grad[{i},{j}]", L[i, j], du, loc,
                           what=f"grad[{i},{j}] vs d u[{i}]/d x[{j}]")
             ident(ctx, "C18.tracefree", f"{name}:{a}{b}:trace", L[0, 0] + L[1, 1] + L[2, 2], ZERO, loc)
+            # every data-dependent early return of the gradient callable must give the Jacobian of the velocity on its own region
+            # (a region where the velocity is regular but the gradient callable bails out is a disagreement between the two siblings)
+            jac = np.empty((3, 3), dtype=object)
+            for i in range(3):
+                for j in range(3):
+                    jac[i, j] = alg.derive(lift(u[i]), {xa[j]: ONE})
+
+            def again(I_, mk=mk, a=a, b=b, dotted=dotted):
+                pr = I_.call(public(ctx, I_, dotted), tuple(mk(a, b)))
+                return I_.call(pr[1], (t, x.copy()))
+            explore_exits(ctx, "C18.jacobian", f"{name}:{a}{b}:gradient callable", I, gL, lambda: Interp(ctx.program), again, jac, loc, what="gradient")
             if name == "corner_2d" and (a, b) == ("X", "Z"):
                 ctx.sample({"flow": tag, "u[0]": short(u[0]), "grad[0,2]": short(L[0, 2])})
     ctx.floor("C18.jacobian", 3 * 6 * 9)
